@@ -221,7 +221,7 @@ def finish(agg, spec, extra_cov=None):
         "samples": agg.samples[:12] if agg.samples else [{"note": "no sample recorded"}],
         "classes_observed": dict(sorted(agg.classes.items())),
         "configs": agg.configs,
-        "config_descriptions": {k: CONFIGS[k]["desc"] for k in agg.configs if k in CONFIGS},
+        "config_descriptions": {k: CONFIGS[k.split("+")[0]]["desc"] + (" (built with -%s)" % k.split("+")[1] if "+" in k else "") for k in agg.configs if k.split("+")[0] in CONFIGS},
         "inconclusive": agg.inconclusive[:50],
         "known_findings_seen": sorted(known.keys()),
         "violation_records": len(real),
@@ -279,16 +279,24 @@ def engine_apimon(prop, tier, seed, spec):
     shutil.rmtree(wdir, ignore_errors=True)
     os.makedirs(wdir, exist_ok=True)
     jobs = []
-    for ci, (cfg, scale) in enumerate(cfgs):
+    for ci, ent in enumerate(cfgs):
+        cfg, scale = ent[0], ent[1]
+        mode = ent[2] if len(ent) > 2 else ""
         try:
-            binp = build(cfg, "apimon", race=spec.get("race", False))
+            binp = build(cfg, "apimon", race=(mode == "race"), asan=(mode == "asan"))
         except BuildError as e:
             log(str(e))
-            agg.inconclusive.append("%s: build failed" % cfg)
+            agg.inconclusive.append("%s%s: build failed" % (cfg, "-" + mode if mode else ""))
             continue
+        label = cfg + ("+" + mode if mode else "")
+        env = dict(os.environ)
+        if mode == "race":
+            env["GORACE"] = "halt_on_error=1"
+        if mode == "asan":
+            env["ASAN_OPTIONS"] = "halt_on_error=1:abort_on_error=1:detect_leaks=0"
         for s in range(nsh):
-            out = os.path.join(wdir, "%s-%d.json" % (cfg, s))
-            jobs.append({"cfg": cfg, "out": out, "log": out + ".log",
+            out = os.path.join(wdir, "%s-%d.json" % (label, s))
+            jobs.append({"cfg": label, "out": out, "log": out + ".log", "env": env,
                          "args": [binp, "-prop", prop, "-tier", tier, "-seed", str(seed), "-shard", str(s), "-nshards", str(nsh),
                                   "-config", cfg, "-scale", str(scale), "-out", out]})
     if not jobs:
@@ -463,7 +471,18 @@ def engine_conc(prop, tier, seed, spec):
     built = {}
     for cfg in cfgs:
         try:
-            b = {"tr": build(cfg, "transcript"), "plain": build(cfg, "conc")}
+            b = {"tr": build(cfg, "transcript")}
+            # the sequential / 386 runs use the monitored-build overlay so that the generated
+            # VerifStateDump() of every package is available to the state monitor; if the overlay
+            # does not apply to this tree the plain build is used (exported state only)
+            try:
+                ov, _rep = monitored_overlay(cfg)
+                b["plain"] = build(cfg, "conc", overlay=ov, extra_tags=["verifshim"], suffix="-shim")
+                b["state"] = "all package-level variables (generated dump)"
+            except BuildError:
+                b["plain"] = build(cfg, "conc")
+                b["state"] = "exported variables only (overlay not applicable)"
+                agg.inconclusive.append("%s: state monitor limited to exported variables (shim overlay did not build)" % cfg)
             if CONFIGS[cfg]["env"].get("GOARCH") != "386":
                 b["race"] = build(cfg, "conc", race=True)
             built[cfg] = b
@@ -522,6 +541,7 @@ def engine_conc(prop, tier, seed, spec):
                 jobs.append({"cfg": cfg, "out": out, "log": out + ".log", "kind": "conc", "env": env,
                              "args": [binp, "-pool", pool, "-solo", solo[cfg], "-mode", "conc", "-G", str(G), "-procs", str(procs), "-ops", str(ops),
                                       "-seed", str(seed), "-shard", str(k), "-config", cfg, "-out", out]})
+    rc66 = []
     for j, st, rc in run_shards(jobs, spec.get("timeout", {}).get(tier, 1800)):
         if st == "timeout":
             agg.inconclusive.append("%s %s shard watchdog" % (j["cfg"], j["kind"]))
@@ -532,8 +552,8 @@ def engine_conc(prop, tier, seed, spec):
             tail = open(j["log"], errors="replace").read()[-2000:]
             if rc == 3:
                 agg.inconclusive.append("%s: %s" % (j["cfg"], tail[-300:]))
-            elif rc == 66 and "DATA RACE" in tail:
-                pass  # exit code of the race runtime; the blocks are counted from the logs below
+            elif rc == 66:
+                rc66.append(j)  # exit code of the race runtime; the blocks are counted from the logs below
             else:
                 agg.violations.append({"property": prop, "sub": "process", "config": j["cfg"], "sig": "crash/" + j["kind"],
                                        "what": "%s workload process died rc=%s: %s" % (j["kind"], rc, tail.replace("\n", " | ")[-700:]),
@@ -546,6 +566,9 @@ def engine_conc(prop, tier, seed, spec):
             agg.violations.append({"property": prop, "sub": "race-detector", "config": cfg, "sig": "race/" + key,
                                    "what": "DATA RACE reported by the Go race detector (%d blocks in this configuration), outermost library frames: %s" % (n, key),
                                    "case": {"op": "race", "report": blk}})
+    if rc66 and total_races == 0:
+        for j in rc66:
+            agg.violations.append({"property": prop, "sub": "process", "config": j["cfg"], "sig": "crash/rc66", "what": "workload process exited with the race runtime's status 66 but no report was found", "case": {"op": "conc-shard", "args": j["args"][1:]}})
     agg.classes["race-detector/DATA-RACE-blocks"] = total_races
     agg.classes["race-detector/instrumented-configs"] = len([c for c in built if "race" in built[c]])
     extra = {"pool_calls": npool, "goroutine_shapes(G,GOMAXPROCS)": "see shards", "race_blocks": total_races}
@@ -694,6 +717,7 @@ def replay_layers(path, v, cfg, spec):
     case = v.get("case", {})
     if case.get("op") != "layer":
         return replay_apimon(path, v, cfg, spec)
+    cfg = cfg.split("+")[0]
     if cfg not in CONFIGS:
         cfg = "K0"
     ov, _ = monitored_overlay(cfg)
@@ -906,7 +930,8 @@ SPECS = {
             "rule": "(scalar, point, path) cases: digit-pattern scalars, all single-bit scalars, low-order / non-canonical u, all lengths; judged by the RFC 7748 ladder model; non-trivial = both arguments 32 bytes; distinct = FNV-64 of (scalar, point, path)"},
     "C12": {"engine": "apimon", "configs": {"quick": [("K0", 1), ("K2", 0.25)], "thorough": [("K0", 1), ("K2", 0.2), ("K6", 0.1)]}, "floor": 4000,
             "rule": "seeds (commutation) and 32-byte public-key strings (conversion vs (1+y)/(1-y) and decodability); distinct = FNV-64 of the input"},
-    "C13": {"engine": "apimon", "configs": {"quick": [("K0", 1), ("K2", 0.25)], "thorough": [("K0", 1), ("K1", 0.1), ("K2", 0.1)]}, "floor": 20000,
+    "C13": {"engine": "apimon", "configs": {"quick": [("K0", 1), ("K2", 0.25), ("K1", 0.06, "race")],
+                                            "thorough": [("K0", 1), ("K1", 0.1), ("K2", 0.1), ("K0", 0.03, "race"), ("K1", 0.03, "race"), ("K2", 0.03, "race"), ("K1", 0.02, "asan"), ("K2", 0.02, "asan")]}, "floor": 20000,
             "rule": "API calls with hostile argument shapes (lengths 0..70, nil/empty, aliasing, canary-guarded capacity); distinct = FNV-64 of (op, alias, options, first arguments)"},
     "C14": {"engine": "apimon", "configs": {"quick": [("K0", 1), ("K2", 0.25)], "thorough": [("K0", 1), ("K2", 0.1)]}, "floor": 1500,
             "rule": "GenerateKey under instrumented readers (exact/long/1-byte/chunked/short at k/error at k) and key-object coherence probes; distinct = FNV-64 of (stream prefix, reader kind, k) or seed"},
@@ -958,6 +983,7 @@ def replay(path):
 
 
 def replay_apimon(path, v, cfg, spec):
+    cfg = cfg.split("+")[0]
     if cfg not in CONFIGS:
         cfg = "K0"
     binp = build(cfg, "apimon")
